@@ -227,6 +227,115 @@ def worker_samples(cfg, tier):
     return [o, Ob("twin.bounds_satisfiable", v, s, cfg, kind="vacuity")]
 
 
+def worker_cem_step(cfg, tier):
+    """the glue of one CEM iteration (cem_step: sample, evaluate, update) with the loss as an oracle: the losses handed to the update are the ones the loss
+    returned for exactly the candidates handed to the update, index-aligned -- so the best-so-far clauses hold relative to the candidates that were *evaluated*"""
+    import jax
+    import jax.numpy as jnp
+    from rex import cem as C
+    from vlib import cg, jx, smt
+    from vlib.fixtures import oracle_callback
+
+    N, ep, leaves = cfg["N"], cfg["elite"], cfg["leaves"]
+    solver, state, _, _ = _mk(N, ep, leaves)
+
+    def loss(x, transform, rng):
+        return jax.pure_callback(oracle_callback("loss", ()), jax.ShapeDtypeStruct((), jnp.float32), x, vmap_method="sequential")
+
+    def normal_oracle(interp, eqn, args):
+        return [interp.sym_like(f"noise{next(jx._fresh_counter)}", v.aval) for v in eqn.outvars]
+
+    alg = jx.FPAlg()
+    plain = cg.Calls()
+    it = jx.Interp(alg=alg, callback_handler=plain.handler, name_handlers={"_normal": normal_oracle})
+    tr = jx.Traced(lambda st, k: C.cem_step(loss, solver, st, None, k), state, jax.random.PRNGKey(0))
+    flat = tr.sym_inputs(it, "w")
+    st_in, _k = tr.in_pytree(flat)
+    new_state, losses = tr.run(it, flat)
+    calls = plain.by_tag("oracle_loss")
+    obs = []
+    if len(calls) != N:
+        return [Ob("cem_step evaluates the loss once per candidate", "sat", 0, cfg, key="cem-step-evals", what=f"cem_step evaluates {len(calls)} candidates, not num_samples={N}", replayed=True)]
+    z = lambda x: alg.z(x, "f")
+
+    def cand(i):  # the candidate the i-th loss evaluation saw (pytree leaves in key order)
+        tree = calls[i]["args"][0]
+        return [z(x) for k in sorted(tree.keys()) for x in tree[k].flat()] if isinstance(tree, dict) else [z(x) for a in calls[i]["args"] for x in a.flat()]
+
+    L = [z(c["outs"][0].item()) for c in calls]
+    isnan, inf = z3.fpIsNaN, z3.fpPlusInfinity(alg.F32)
+    L2 = [z3.If(isnan(x), inf, x) for x in L]
+    old, new = z(st_in.bestsofar_loss.item()), z(new_state.bestsofar_loss.item())
+    flat_tree = lambda t: [z(x) for k in sorted(t.keys()) for x in t[k].flat()]
+    new_best, old_best = flat_tree(new_state.bestsofar), flat_tree(st_in.bestsofar)
+    same = lambda xs, ys: z3.And(len(xs) == len(ys), *[x == y for x, y in zip(xs, ys)])
+    mn = old
+    for x in L2:
+        mn = z3.If(z3.fpLT(x, mn), x, mn)
+    pre = [z3.Not(isnan(old))]
+    ret = [z(x) for x in losses.flat()]
+    clauses = {
+        "cem_step: best-so-far loss == min(previous best, losses the loss function returned, NaN as +inf)": z3.fpEQ(new, mn),
+        "cem_step: best-so-far candidate is the previous best or a candidate that was evaluated and attains the reported loss": z3.Or(
+            z3.And(z3.fpEQ(old, new), same(new_best, old_best)), *[z3.And(z3.fpEQ(L2[i], new), same(new_best, cand(i))) for i in range(N)]),
+        "cem_step: the returned per-candidate losses are the raw losses, in candidate order": z3.And(len(ret) == N, *[a == r for a, r in zip(ret, L)]),
+    }
+    tmo = 120 if tier == "quick" else 600
+    # the candidates are only compared for identity: abstract each candidate coordinate (mean + stdev*noise, clipped) by a fresh Float32 constant, so the
+    # solver does not bit-blast the sampling arithmetic (sound for 'unsat': the goal is then shown for arbitrary candidate values)
+    pairs, seen_ids = [], set()
+    for i in range(N):
+        for j, t in enumerate(cand(i)):
+            if t.get_id() not in seen_ids and not z3.is_const(t):
+                seen_ids.add(t.get_id())
+                pairs.append((t, z3.FP(f"cand_{i}_{j}", alg.F32)))
+    for name, goal in clauses.items():
+        v, m, s_ = smt.check(pre, z3.substitute(goal, *pairs) if pairs else goal, tmo)
+        o = Ob(name, v, s_, cfg, key="cem-step:" + name[10:50], what=f"CEM iteration violates: {name}")
+        if v == "sat":
+            o.replayed = _replay_cem_step(cfg)
+        obs.append(o)
+    v, m, s_ = smt.satisfiable(pre + [z3.fpLT(L2[0], old), isnan(L[1])], 30)
+    obs.append(Ob("twin.cem_step improving and NaN losses reachable", v, s_, cfg, kind="vacuity"))
+    return obs
+
+
+def _replay_cem_step(cfg):
+    """concrete differential on the real cem_step: best-so-far after one iteration against the candidates the loss function actually saw"""
+    import jax
+    import jax.numpy as jnp
+    import numpy as onp
+    from rex import cem as C
+
+    try:
+        solver, state, _, _ = _mk(cfg["N"], cfg["elite"], cfg["leaves"])
+        seen = []
+
+        def loss(x, transform, rng):
+            v = sum(jnp.sum(jnp.sin(3.0 * l + 0.3)) for l in jax.tree_util.tree_leaves(x))
+            jax.debug.callback(lambda xx, vv: seen.append((jax.tree_util.tree_map(onp.asarray, xx), float(vv))), x, v)
+            return v
+
+        for seed in range(4):
+            seen.clear()
+            st = state.replace(bestsofar_loss=jnp.float32(onp.inf if seed % 2 == 0 else 0.5))
+            new, losses = C.cem_step(loss, solver, st, None, jax.random.PRNGKey(seed))
+            jax.effects_barrier()
+            vals = [v for _, v in seen]
+            want = min([float(st.bestsofar_loss)] + vals)
+            if abs(float(new.bestsofar_loss) - want) > 1e-6:
+                return True
+            if float(new.bestsofar_loss) < float(st.bestsofar_loss):
+                nb = onp.concatenate([onp.ravel(new.bestsofar[k]) for k in sorted(new.bestsofar)])
+                if not any(abs(v - want) <= 1e-6 and onp.allclose(onp.concatenate([onp.ravel(x[k]) for k in sorted(x)]), nb) for x, v in seen):
+                    return True
+            if sorted(onp.asarray(losses).tolist()) != sorted(vals) and not onp.allclose(sorted(onp.asarray(losses).tolist()), sorted(vals), atol=1e-6):
+                return True
+        return False
+    except BaseException:  # noqa
+        return None
+
+
 def worker_evo(cfg, tier):
     """rex.evo.evo_step around a stub strategy (evosax internals are outside the claim): the candidates evaluated are the ones the
     strategy asked for, and the fitness handed to strategy.tell is the loss with NaN replaced by +inf (never NaN)"""
@@ -337,6 +446,8 @@ def run(rep):
     obs = pmap("props.c18", "worker_update", cfgs, rep.tier)
     rep.encode(cem.CEMSolver.init_state)
     obs += pmap("props.c18", "worker_init", cfgs[:2], rep.tier)
+    rep.encode(cem.cem_step)
+    obs += pmap("props.c18", "worker_cem_step", cfgs[:2] if rep.tier == "quick" else cfgs[:3], rep.tier)
     obs += pmap("props.c18", "worker_samples", [dict(leaves=["a", "b"])], rep.tier)
     from rex import evo
     rep.encode(evo.evo_step)
